@@ -585,13 +585,35 @@ impl<'d> UBuilder<'d> {
                     .map(|t| (None, t))
                     .chain(self.b_data().named.iter().flat_map(|(g, ts)| ts.iter().map(move |t| (Some(g.clone()), t))))
                     .collect();
+                // A quarter of the blocks are GROUND (no variable at all): the block is still one conjunctive pattern, so it
+                // deletes its quads only if every one of them is present. Up to three quads; each may be made absent.
+                let ground = !pool.is_empty() && ts[0].graph_mode % 4 == 0;
+                let mut ts: Vec<RawTpl> = ts.clone();
+                if ground && ts.len() < 3 && ts[0].copy_where {
+                    let mut extra = ts[0].clone();
+                    extra.sel = extra.sel.rotate_left(7) ^ 0x5a5a;
+                    ts.push(extra);
+                }
                 let qs = ts
                     .iter()
-                    .map(|r| {
+                    .enumerate()
+                    .map(|(qi, r)| {
                         if pool.is_empty() {
                             return TplQuad { graph: None, t: [TT::Var("a".into()), TT::Var("b".into()), TT::Var("c".into())] };
                         }
                         let (g, t) = &pool[pick_idx(r.sel, pool.len())];
+                        if ground {
+                            let mut t: Triple3 = (*t).clone();
+                            // every second quad after the first: probably absent (another object of the same kind)
+                            if qi > 0 && r.swap {
+                                t[2] = match &t[2] {
+                                    Tm::Iri(_) => Tm::Iri(format!("{NS}o{}", r.g % 2)),
+                                    Tm::Num(n) => Tm::Num(n + 40 + (r.g % 3) as i64),
+                                    Tm::Lit(_) => Tm::Lit("absent".into()),
+                                };
+                            }
+                            return TplQuad { graph: g.clone().map(GName::Iri), t: [TT::C(t[0].clone()), TT::C(t[1].clone()), TT::C(t[2].clone())] };
+                        }
                         let lift = |i: usize, rt: &RawTplTerm| -> TT {
                             if rt.mode < 6 {
                                 TT::Var(VARS[(rt.a as usize + i) % VARS.len()].to_string())
